@@ -113,7 +113,7 @@ func (f *fmt) clearflags()
 
 func (f *fmt) init(buf *buffer)
   modifies f, ptr(f.buf)
-  ensures f.buf == buf && f.wid == old(f.wid) && f.prec == old(f.prec)
+  ensures f.buf == buf && f.wid == 0 && f.prec == 0
   ensures !f.widPresent && !f.precPresent && !f.minus && !f.plus && !f.sharp && !f.space && !f.zero && !f.plusV && !f.sharpV
 
 func (f *fmt) writePadding(n int)
